@@ -48,7 +48,7 @@ type vC18Gate struct {
 	mu      sync.Mutex
 	parked  bool
 	open    bool // true: do not park (shutdown in progress / gate not used)
-	release chan struct{}
+	release []chan struct{} // one per parked goroutine (two servers append in one process)
 }
 
 var (
@@ -94,8 +94,24 @@ func vC18LearnDispatcher() {
 	vC18DispFn.Store(fn)
 }
 
-// number of goroutines of this process that run the dispatcher function; -1 = not known yet
+// dispatcher goroutines of the FOREIGN cluster's server (same process): it is the
+// controller of its own cluster from its start to the end of the behaviour
+var vC18ForeignDisps int64
+
+// number of goroutines of this process that run the dispatcher function on behalf of the
+// cluster under test; -1 = not known yet
 func vC18Dispatchers() int64 {
+	n := vC18AllDispatchers()
+	if n > 0 {
+		n -= atomic.LoadInt64(&vC18ForeignDisps)
+		if n < 0 {
+			n = 0
+		}
+	}
+	return n
+}
+
+func vC18AllDispatchers() int64 {
 	v := vC18DispFn.Load()
 	if v == nil {
 		return -1
@@ -110,6 +126,68 @@ func vC18Dispatchers() int64 {
 		}
 	}
 	return n
+}
+
+// vC18DispatcherIdle: every dispatcher goroutine is BLOCKED (select / channel receive /
+// condition wait - not runnable, not running, not sleeping, not in a system call or I/O)
+// and every frame from the top of its stack down to the dispatcher function lies in
+// the activity manager's own source file: it waits for the next commit (or sits in a
+// back-off) - it is not inside a publish, a Raft proposal or a log-store read that is
+// merely slow.  A goroutine whose channel has received something is runnable, so
+// machine load cannot make a working dispatcher look idle.
+func vC18DispatcherIdle() bool {
+	v := vC18DispFn.Load()
+	if v == nil {
+		return false
+	}
+	fn := v.(string) + "("
+	buf := make([]byte, 4<<20)
+	buf = buf[:runtime.Stack(buf, true)]
+	found := false
+	for _, g := range strings.Split(string(buf), "\n\n") {
+		if !strings.Contains(g, fn) {
+			continue
+		}
+		found = true
+		lines := strings.Split(g, "\n")
+		hdr := lines[0]
+		i := strings.Index(hdr, "[")
+		if i < 0 {
+			return false
+		}
+		state := hdr[i+1:]
+		if !(strings.HasPrefix(state, "select") || strings.HasPrefix(state, "chan receive") ||
+			strings.HasPrefix(state, "sync.Cond.Wait")) {
+			return false
+		}
+		file := ""
+		for k := 1; k+1 < len(lines); k += 2 {
+			loc := strings.TrimSpace(lines[k+1])
+			if j := strings.LastIndex(loc, ":"); j > 0 {
+				loc = loc[:j]
+			}
+			if strings.HasPrefix(lines[k], fn) {
+				file = loc
+				break
+			}
+		}
+		if file == "" {
+			return false
+		}
+		for k := 1; k+1 < len(lines); k += 2 {
+			loc := strings.TrimSpace(lines[k+1])
+			if j := strings.LastIndex(loc, ":"); j > 0 {
+				loc = loc[:j]
+			}
+			if loc != file {
+				return false
+			}
+			if strings.HasPrefix(lines[k], fn) {
+				break
+			}
+		}
+	}
+	return found
 }
 
 func vC18Hook(name string) {
@@ -129,7 +207,7 @@ func vC18Hook(name string) {
 	}
 	g.parked = true
 	ch := make(chan struct{})
-	g.release = ch
+	g.release = append(g.release, ch)
 	g.mu.Unlock()
 	<-ch
 }
@@ -158,7 +236,7 @@ func vC18AppendHook(name string) {
 	}
 	g.parked = true
 	ch := make(chan struct{})
-	g.release = ch
+	g.release = append(g.release, ch)
 	g.mu.Unlock()
 	<-ch
 }
@@ -177,7 +255,10 @@ func (g *vC18Gate) releaseOne() bool {
 		return false
 	}
 	g.parked = false
-	close(g.release)
+	for _, ch := range g.release {
+		close(ch)
+	}
+	g.release = nil
 	return true
 }
 
@@ -357,6 +438,14 @@ type vC18Run struct {
 	snap  int64
 	pub   []vC18Ev
 	seenPubFails int64
+	// A second CLUSTER (one server "f", its own Raft log, its own namespace) on the same
+	// NATS deployment.  When the behaviour has one, "f" runs the NATS server and the
+	// cluster under test connects to it, so that restarts of "a" leave NATS alone.
+	foreign   *Server
+	foreignNS string // namespace of the foreign cluster ("" = the default namespace)
+	ownNS     string // namespace of the cluster under test ("" = default)
+	natsURL   string
+	foreignN  int
 }
 
 type vC18Inconclusive struct{ msg string }
@@ -383,7 +472,8 @@ type vC18Quiet struct {
 
 const (
 	vC18QuietFor     = 15 * time.Second
-	vC18WaitDeadline = 45 * time.Second
+	vC18QuietSamples = 200 // samples >= 25 ms apart in which the dispatcher was seen blocked in its own code
+	vC18WaitDeadline = 60 * time.Second
 )
 
 type vC18Pulse struct {
@@ -405,6 +495,7 @@ func (r *vC18Run) waitDispatcher(n *vC18Node, what string, cond func() bool) {
 	deadline := time.Now().Add(vC18WaitDeadline)
 	var zeroSince, quietSince time.Time
 	var last vC18Pulse
+	zeroSamples, quietSamples := 0, 0
 	for !cond() {
 		now := time.Now()
 		if now.After(deadline) {
@@ -412,9 +503,11 @@ func (r *vC18Run) waitDispatcher(n *vC18Node, what string, cond func() bool) {
 		}
 		ctl := n.srv != nil && n.srv.IsRunning() && n.srv.getRaft() != nil && n.srv.IsLeader() && !n.stepped
 		if ctl && vC18Dispatchers() == 0 {
+			// (the window counts samples as well as wall time: a process that is not
+			//  scheduled for seconds collects no samples)
 			if zeroSince.IsZero() {
-				zeroSince = now
-			} else if now.Sub(zeroSince) > vC18StallFor {
+				zeroSince, zeroSamples = now, 0
+			} else if zeroSamples++; now.Sub(zeroSince) > vC18StallFor && zeroSamples >= 100 {
 				panic(vC18Stalled{n})
 			}
 			time.Sleep(20 * time.Millisecond)
@@ -425,12 +518,14 @@ func (r *vC18Run) waitDispatcher(n *vC18Node, what string, cond func() bool) {
 			rn := n.srv.getRaft()
 			cur := r.pulse(n)
 			idle := rn.AppliedIndex() >= rn.LastIndex() && rn.getCommitIndex() >= rn.LastIndex()
-			if quietSince.IsZero() || cur != last || !idle {
-				quietSince, last = now, cur
-			} else if now.Sub(quietSince) > vC18QuietFor {
+			// the dispatcher itself must be seen blocked in its own code in EVERY sample of
+			// the window (not a publish / proposal / read that is slow on a loaded machine)
+			if quietSince.IsZero() || cur != last || !idle || !vC18DispatcherIdle() {
+				quietSince, last, quietSamples = now, cur, 0
+			} else if quietSamples++; now.Sub(quietSince) > vC18QuietFor && quietSamples >= vC18QuietSamples {
 				panic(vC18Quiet{n, what})
 			}
-			time.Sleep(5 * time.Millisecond)
+			time.Sleep(25 * time.Millisecond)
 			continue
 		}
 		quietSince = time.Time{}
@@ -463,7 +558,93 @@ func (r *vC18Run) config(id string, cluster bool) *Config {
 	cfg.Groups.ConsumerTimeout = time.Hour
 	cfg.Groups.CoordinatorTimeout = time.Hour
 	cfg.Clustering.RaftSnapshots = 2
+	if r.natsURL != "" {
+		cfg.EmbeddedNATS = false
+		cfg.NATS.Servers = []string{r.natsURL}
+	}
+	if r.ownNS != "" {
+		cfg.Clustering.Namespace = r.ownNS
+	}
 	return cfg
+}
+
+// the foreign cluster: started before the cluster under test, never restarted, its
+// dispatcher is not gated (no gate is registered for its server id)
+func (r *vC18Run) startForeign() {
+	cfg := vOneNodeConfig(r.t, "f")
+	cfg.DataDir = filepath.Join(storagePath, fmt.Sprintf("c18-%d", r.bid), "f")
+	cfg.ActivityStream.Enabled = true
+	cfg.ActivityStream.PublishTimeout = 2 * time.Second
+	cfg.Groups.ConsumerTimeout = time.Hour
+	cfg.Groups.CoordinatorTimeout = time.Hour
+	if r.foreignNS != "" {
+		cfg.Clustering.Namespace = r.foreignNS
+	}
+	srv := New(cfg)
+	if err := srv.Start(); err != nil {
+		vC18Fail("foreign server did not start: %v", err)
+	}
+	r.foreign = srv
+	r.natsURL = cfg.NATS.Servers[0]
+	// its dispatcher is running once it has published the creation of its own activity
+	// stream (the publish hook has then also learned the dispatcher function)
+	vC18Wait("foreign cluster's controller and dispatcher", func() bool {
+		vC18Append.releaseOne()
+		return srv.IsRunning() && srv.getRaft() != nil && srv.IsLeader() && srv.activity.LastPublishedRaftIndex() > 0 &&
+			vC18AllDispatchers() == 1
+	})
+	atomic.StoreInt64(&vC18ForeignDisps, 1)
+}
+
+// One operation committed on the FOREIGN cluster and published by its controller to its
+// own activity stream (the append gate is shared by every commit log of the process:
+// keep it open while waiting).  Returns what the foreign stream's newest event is.
+func (r *vC18Run) foreignOp() string {
+	f := r.foreign
+	if f == nil {
+		vC18Fail("ForeignOp: the behaviour has no foreign cluster")
+	}
+	r.foreignN++
+	name := fmt.Sprintf("f%d", r.foreignN)
+	ctx, cancel := context.WithTimeout(context.Background(), 10*time.Second)
+	defer cancel()
+	if _, err := f.api.CreateStream(ctx, &client.CreateStreamRequest{Name: name, Subject: "f." + name, Partitions: 1}); err != nil {
+		vC18Fail("ForeignOp: %v", err)
+	}
+	// index of the operation in the foreign Raft log = the newest CREATE_STREAM command
+	rn := f.getRaft()
+	var opIdx uint64
+	vC18Wait("foreign operation applied", func() bool {
+		for i := rn.getCommitIndex(); i >= 1 && opIdx == 0; i-- {
+			l := new(raft.Log)
+			if err := rn.store.GetLog(i, l); err != nil {
+				return false
+			}
+			if e := vC18OpEntry(l); e.K == "E" && e.C == "CREATE_STREAM:"+name+":0" {
+				opIdx = i
+			}
+		}
+		return opIdx > 0
+	})
+	vC18Wait("foreign event published", func() bool {
+		vC18Append.releaseOne()
+		return f.activity.LastPublishedRaftIndex() >= opIdx
+	})
+	// give a leaked event the time to arrive: one round trip through the same NATS
+	// connection pair orders us behind the foreign publish
+	if a := r.nodes[r.order[0]]; a.srv != nil && a.srv.IsRunning() {
+		if err := a.srv.nc.Flush(); err != nil {
+			vC18Fail("flush: %v", err)
+		}
+	}
+	if err := f.nc.Flush(); err != nil {
+		vC18Fail("flush: %v", err)
+	}
+	time.Sleep(20 * time.Millisecond)
+	// a message that arrived at a partition of this process is now at the append gate
+	vC18Append.releaseOne()
+	time.Sleep(20 * time.Millisecond)
+	return name
 }
 
 func (r *vC18Run) start(n *vC18Node) {
@@ -878,6 +1059,12 @@ func (r *vC18Run) step(step map[string]interface{}) (ev vC18Event) {
 			r.readRaftLog(n)
 			r.snap = int64(len(r.rlog))
 		}
+	case "ForeignOp":
+		focus = r.controller()
+		if focus == nil {
+			focus = r.anyUp()
+		}
+		ev.Args["name"] = r.foreignOp()
 	case "Sleep":
 		time.Sleep(time.Duration(vIntDef(step, "ms", 100)) * time.Millisecond)
 	case "Settle":
@@ -942,6 +1129,19 @@ func (r *vC18Run) probe() (ev vC18Event, ok bool) {
 }
 
 func (r *vC18Run) closeAll() {
+	defer func() {
+		if f := r.foreign; f != nil {
+			r.foreign = nil
+			defer atomic.StoreInt64(&vC18ForeignDisps, 0)
+			done := make(chan struct{})
+			go func() { defer close(done); defer func() { recover() }(); f.Stop() }()
+			select {
+			case <-done:
+			case <-time.After(vC18Deadline):
+			}
+		}
+		os.RemoveAll(filepath.Join(storagePath, fmt.Sprintf("c18-%d", r.bid)))
+	}()
 	for _, id := range r.order {
 		n := r.nodes[id]
 		func() {
@@ -949,7 +1149,6 @@ func (r *vC18Run) closeAll() {
 			r.stop(n)
 		}()
 	}
-	os.RemoveAll(filepath.Join(storagePath, fmt.Sprintf("c18-%d", r.bid)))
 }
 
 func TestVerifC18(t *testing.T) {
@@ -992,10 +1191,12 @@ func TestVerifC18(t *testing.T) {
 						ev := vC18Event{T: b.ID, A: "Quiet", Args: map[string]interface{}{"n": q.node.id,
 							"ms": int64(vC18QuietFor / time.Millisecond)}, St: r.state(q.node)}
 						tw.Emit(ev)
-						// if TLC finds nothing wrong with the quiet state the scenario simply
-						// did not reach its target: inconclusive
-						timeouts++
-						tw.Emit(map[string]interface{}{"t": b.ID, "a": "Abandoned", "why": "quiescent while waiting for " + q.what})
+						// The dispatcher was seen blocked in its own code, waiting for the next
+						// commit, for the whole window: the step the behaviour expected will not
+						// come.  TLC judges the state (C18_IdleMeansPublished); if nothing is
+						// pending the real code simply had less to publish than the specification
+						// said - conformance drift, reported by the check, not a failed run.
+						tw.Emit(map[string]interface{}{"t": b.ID, "a": "Completed", "quiet": q.what})
 						return
 					}
 					if inc, ok := p.(vC18Inconclusive); ok {
@@ -1009,6 +1210,11 @@ func TestVerifC18(t *testing.T) {
 					panic(p)
 				}
 			}()
+			if fc, ok := b.Cfg["foreign"].(map[string]interface{}); ok {
+				r.foreignNS = vStrDef(fc, "ns", "c18y")
+				r.ownNS = vStrDef(fc, "own", "")
+				r.startForeign()
+			}
 			for _, id := range nodes {
 				r.start(r.nodes[id])
 			}
